@@ -23,10 +23,16 @@ func propTable() map[string]*PropSpec {
 	{
 		var quick, thorough []RunConfig
 		for _, n := range []int{4, 5, 7, 22, 64} {
-			quick = append(quick, arith(rc(fmt.Sprintf("C18_Leader/n=%d", n), "services/termincommittee", "C18_Leader", map[string]int{"n": n})))
+			quick = append(quick, arith(rc(fmt.Sprintf("C18_Leader/n=%d", n), "services/termincommittee", "C18_Leader", map[string]int{"n": n, "idlen": 1})))
 		}
 		for n := 4; n <= 64; n++ {
-			thorough = append(thorough, arith(rc(fmt.Sprintf("C18_Leader/n=%d", n), "services/termincommittee", "C18_Leader", map[string]int{"n": n})))
+			thorough = append(thorough, arith(rc(fmt.Sprintf("C18_Leader/n=%d", n), "services/termincommittee", "C18_Leader", map[string]int{"n": n, "idlen": 1})))
+			if n%6 == 4 {
+				thorough = append(thorough, arith(rc(fmt.Sprintf("C18_Leader/n=%d/idlen=4", n), "services/termincommittee", "C18_Leader", map[string]int{"n": n, "idlen": 4})))
+			}
+		}
+		for _, n := range []int{4, 7} {
+			quick = append(quick, arith(rc(fmt.Sprintf("C18_Leader/n=%d/idlen=4", n), "services/termincommittee", "C18_Leader", map[string]int{"n": n, "idlen": 4})))
 		}
 		t["C18"] = &PropSpec{ID: "C18", Quick: quick, Thorough: thorough,
 			Bounds:  []string{"committee size n concrete per query (quick: 4,5,7,22,64; thorough: every n in 4..64); view fully symbolic over 64 bits; window offset symbolic in 1..n-1"},
@@ -109,6 +115,11 @@ func propTable() map[string]*PropSpec {
 				q = append(q, c)
 			}
 		}
+		fq := rc("C12_FullQueue", ".", "C12_FullQueue", nil)
+		fq.MaxLoop = 1200
+		fq.RequireReach = []string{"C12.fullqueue.done"}
+		q = append(q, fq)
+		th = append(th, fq)
 		t["C12"] = &PropSpec{ID: "C12", Quick: q, Thorough: th,
 			Assumptions: []string{"channel model: the harness plays the sending goroutine (one pending send on messagesChannel); the loop context is cancelled when the loop is idle"},
 			Bounds:      []string{"fully symbolic content bytes of length <= 16 (quick) / <= 24 (thorough), with and without a block; one iteration of MainLoop.run then one of WorkerLoop.Run", "structured mutation: a genuine PREPARE / COMMIT / VIEW_CHANGE-with-proof (quick) and also PREPREPARE / NEW_VIEW-with-votes (thorough), 60..400 bytes, with one 4-byte aligned window at a symbolic position replaced by arbitrary bytes, through MainLoop.run and the worker's handler, followed by an honest round that must still commit"},
@@ -184,10 +195,18 @@ func propTable() map[string]*PropSpec {
 		}
 		for commits := 1; commits <= 4; commits++ {
 			for _, il := range []int{1, 2, 5} {
-				c := mk("C20_BlockProof", map[string]int{"idlen": il, "hashlen": il + 1, "commits": commits}, "C20.proof.done")
+				c := mk("C20_BlockProof", map[string]int{"idlen": il, "hashlen": il + 1, "commits": commits, "emptyshares": 0}, "C20.proof.done")
 				th = append(th, c)
 				if il == 1 {
 					q = append(q, c)
+				}
+				if il == 2 && commits >= 2 {
+					c2 := mk("C20_BlockProof", map[string]int{"idlen": il, "hashlen": il + 1, "commits": commits, "emptyshares": 2}, "C20.proof.done")
+					c2.Name += "/emptyshares=2"
+					th = append(th, c2)
+					if commits == 3 {
+						q = append(q, c2)
+					}
 				}
 			}
 		}
@@ -209,10 +228,10 @@ func propTable() map[string]*PropSpec {
 					q = append(q, c)
 				}
 			}
-			for _, k := range []int{-1, 0, 1, 2, 3} {
+			for _, k := range []int{-2, -1, 0, 1, 2, 3} {
 				c := rc(fmt.Sprintf("C08_OneMessage/prefix=%d/kind=VC/prepares=%d", pf, k), ".", "C08_OneMessage", map[string]int{"prefix": pf, "kind": 3, "prepares": k})
 				th = append(th, c)
-				if (pf == 3 || pf == 4) && (k == -1 || k == 2) {
+				if (pf == 3 || pf == 4) && (k == -1 || k == 2 || k == -2) {
 					q = append(q, c)
 				}
 			}
@@ -365,6 +384,12 @@ func propTable() map[string]*PropSpec {
 				}
 			}
 		}
+		// accepted proposal + two COMMITs, then: timeout / third COMMIT in either order, re-deliveries
+		for _, seq := range []int{42, 24, 45, 25, 22, 46, 26, 62} {
+			c := mk(1, 6, 2, seq)
+			th = append(th, c)
+			q = append(q, c)
+		}
 		for _, seq := range []int{4, 40, 44, 404, 440, 414, 441, 144, 43, 434, 34, 340, 341, 403, 413, 12, 120, 124, 412, 421, 241, 142, 466, 646, 664, 661, 616, 166, 665, 656, 460, 640} {
 			for _, me := range []int{1, 2} {
 				th = append(th, mk(me, 2, 3, seq), mk(me, 0, 3, seq))
@@ -444,7 +469,7 @@ func propTable() map[string]*PropSpec {
 		c5 := rc("C15_Registry/ops=5", "state", "C15_Registry", map[string]int{"ops": 5})
 		c5.MaxPaths = 2000000
 		th = append(th, c5)
-		for site := 0; site <= 5; site++ {
+		for site := 0; site <= 6; site++ {
 			c := rc(fmt.Sprintf("C15_SPI/site=%d", site), ".", "C15_SPI", map[string]int{"site": site})
 			q = append(q, c)
 			th = append(th, c)
@@ -457,7 +482,7 @@ func propTable() map[string]*PropSpec {
 		}
 		t["C15"] = &PropSpec{ID: "C15", Quick: q, Thorough: th,
 			Assumptions: []string{"context model: context.WithCancel / Err / Done modelled by the engine (parent-child cancellation)", "SPI stubs perform a nondeterministic interference action (CancelOlderThan with symbolic argument, Shutdown, or nothing) standing for what the main loop can do while the worker is blocked in the call"},
-			Bounds:      []string{"registry: k operations For/CancelOlderThan/Shutdown with symbolic 64-bit (height, view) arguments (k=3,4 quick; up to 5 thorough); 6 SPI call sites (first-leader proposal, proposal validation, elected-leader proposal, NEW_VIEW validation, committee polling, commit callback); main loop: one election trigger / one sync with symbolic position in the channel model, checked at the moment the event is forwarded to the worker"},
+			Bounds:      []string{"registry: k operations For/CancelOlderThan/Shutdown with symbolic 64-bit (height, view) arguments (k=3,4 quick; up to 5 thorough); 7 SPI call sites (first-leader proposal, proposal validation for the current and for the next view, elected-leader proposal, NEW_VIEW validation, committee polling, commit callback); main loop: one election trigger / one sync with symbolic position in the channel model, checked at the moment the event is forwarded to the worker"},
 			Outside:     []string{"wall-clock promptness ('as soon as'); a consumer SPI that ignores its context; real goroutine scheduling"},
 		}
 	}
@@ -568,6 +593,7 @@ func propTable() map[string]*PropSpec {
 			mk(1, 2, 1, 2, 12, 0, 0, 3), // PREPARE then COMMIT
 			mk(1, 1, 1, 2, 22, 0, 1, 3), // two COMMITs, all locked, nobody committed yet
 			dbl,
+			mk(0, 3, 0, 1, 2, 0, 0, 1), // Byzantine first leader equivocated (Y side committed); one symbolic COMMIT to the X side
 		}
 		q[2].RequireReach = []string{"C01.some_commit"}
 		th := append([]RunConfig{}, q...)
@@ -581,7 +607,7 @@ func propTable() map[string]*PropSpec {
 		th[len(th)-2].Params["kinds"] = 2 // 002
 		t["C01"] = &PropSpec{ID: "C01", Quick: q, Thorough: th, LabelPrefixes: []string{"C01."},
 			Assumptions: []string{"ideal signature registry with the unforgeability assumption: genuine signatures only under the Byzantine member's and outsiders' keys, byte-exact replays of anything signed earlier in the run allowed", "proposal validation / commitment stubs; committee of 4 equal weights (f=1), one Byzantine member", "honest traffic is flushed FIFO to all correct nodes after each adversarial step; message loss only as listed in the prefixes; optional re-delivery of everything sent so far (delay/duplication)"},
-			Bounds:      []string{"n=4, one Byzantine member (index 1 quick; 0,1,3 thorough); prefixes: nothing / all correct nodes locked on the honest view-0 proposal / additionally one correct node committed it with the help of a genuine Byzantine COMMIT, each optionally followed by one or two rounds of election timeouts (the votes of the first being lost); then <=2 (quick) / <=3 (thorough) fully symbolic adversarial multicasts of listed kinds (PREPREPARE, PREPARE, COMMIT, VIEW_CHANGE with/without proof, NEW_VIEW with 3 votes with/without proof) to a fixed or symbolic subset of correct nodes"},
+			Bounds:      []string{"n=4, one Byzantine member (index 1 quick; 0,1,3 thorough); prefixes: nothing / equivocation of a Byzantine first leader with one side committed / all correct nodes locked on the honest view-0 proposal / additionally one correct node committed it with the help of a genuine Byzantine COMMIT, each optionally followed by one or two rounds of election timeouts (the votes of the first being lost); then <=2 (quick) / <=3 (thorough) fully symbolic adversarial multicasts of listed kinds (PREPREPARE, PREPARE, COMMIT, VIEW_CHANGE with/without proof, NEW_VIEW with 3 votes with/without proof) to a fixed or symbolic subset of correct nodes"},
 			Outside:     []string{"this is NOT a proof of agreement for all schedules: anything beyond the listed prefixes, more than 3 adversarial steps, other delivery orders, committees > 4, more than one Byzantine member"},
 		}
 	}
